@@ -31,9 +31,9 @@ func runC28(c *core.Ctx, b core.Batch) {
 		nb = 4
 	}
 	types := shard(codecTypes(b), b.N, nb)
-	per := c.Scale(8, 100)
+	per := c.Scale(40, 400)
 	if b.Cfg == "race" {
-		per = c.Scale(2, 12)
+		per = c.Scale(4, 30)
 	}
 	for ti, mt := range types {
 		for k := 0; k < per; k++ {
